@@ -1,13 +1,13 @@
 """
 C18 - n0xml keeps document order and its searches return only real nodes.
 
-Lean: lean/N0Verif/Model/NXml.lean, Proofs/NXml.lean, Props/C18.lean
-B streams: nxml.parse, nxml.get, nxml.getl, nxml.findall (str / list, find_first on / off),
+Lean: lean/N0Verif/Model/NXml.lean, Proofs/NXml.lean, Proofs/NXmlStr.lean, Props/C18.lean
+B streams: nxml.parse, nxml.get, nxml.getl, nxml.getattr, nxml.getattrl, nxml.findall (str / list, find_first on / off),
            nxml.findfirst, nxml.in, nxml.step (vs re.match with the regex taken from the source),
-           nxml.int (vs int()), nxml.dec (vs str()), nxml.norm
+           nxml.int (vs int()), nxml.dec (vs str()), nxml.norm, nxml.findall/grammar (rendered grammar expressions)
 C evaluators (the statement on the real code, ElementTree as the oracle):
-           parse_preserves, get_positional, findall_resolves, conditions_exact, deep_wildcard,
-           findfirst, in_iff
+           parse_preserves, get_positional, get_attrib_positional, findall_resolves, conditions_exact,
+           deep_wildcard, findfirst, in_iff, parse_render (string form == list form, regex groups == tokens)
 """
 import ast
 import os
@@ -23,23 +23,34 @@ MANIFEST = dict(
     technique="Lean 4 theorems over a hand-written model of n0xml (input: the element tree ElementTree reports) + "
               "differential correspondence with the implementation + the statement run on the implementation against ElementTree",
     text="Partial by nature: xml.etree.ElementTree (expat) is trusted; the model starts from the element tree it reports "
-         "(tag, text, attrib, children). Proved in Lean for the code with fixes C18-a/b/c applied, unbounded in document "
+         "(tag, text, attrib, children). Proved in Lean for the code with fixes C18-a/b/c/d applied, unbounded in document "
          "size/depth and expression length: C18_parse_preserves (the parsed structure lists, in document order, exactly the "
          "elements below the root with depth, tag, attributes and the text of every childless element); C18_get_positional "
-         "(list-form get with explicit per-tag indexes returns the stored value of the element at that position, the default "
-         "when there is none; tags without '/' and '['); C18_findall_resolves (every (path, value) pair returned by findall - "
-         "any list of steps incl. '*', '**', indexes, text() conditions and '..', both find_first modes - resolves through "
-         "list-form get to that value); C18_conditions_exact (for expressions of plain steps name|* [i]|[*] [text() op v], any "
-         "length, findall equals the sibling-filter semantics: exactly the siblings passing tag, per-tag index and text test, in "
-         "order); C18_deep_wildcard ('**' returns every leaf exactly once in document order, nothing for a document without "
-         "elements); C18_findfirst_partial / C18_in_iff_partial / C18_find_first_prefix (for every expression without a '..' "
-         "step: findfirst is the first findall result, 'in' is true exactly when findall is non-empty, findall never returns "
-         "None and find_first=True yields a prefix). NOT proved, differential only: the same two statements for expressions "
-         "containing '..' (C18_findfirst_stmt outside the class of finding C18-d, C18_in_iff_stmt); C18_findfirst_cex proves that findfirst differs "
-         "from the first findall result for '**[1]/..' (known finding C18-d). The step regex is replaced by a hand-written "
-         "parser validated against re.match (regex read from the source); the string forms (path split/normalisation, "
-         "'/'.join of result paths) and int()/str() are validated by correspondence streams; all seven statements are "
-         "executed on the real code with ElementTree as the oracle.",
+         "(+_str: list-form and string-form get with explicit per-tag indexes 't1[k1]/.../tn[kn]' returns the stored value of "
+         "the element at that position, the default when there is none; tags without '/' and '[', non-empty for the string); "
+         "C18_get_attrib_positional (+_str: get_attrib at such a position returns exactly the attributes ElementTree reports "
+         "for that element, with or without children; non-empty path); C18_findall_resolves (every (path, value) pair returned "
+         "by findall - any list of steps incl. '*', '**', indexes, text() conditions and '..', both find_first modes - "
+         "resolves through list-form get to that value) and C18_findall_resolves_get_str (the same pair satisfies "
+         "get('/'.join(path)) == value: the path split replace('/[','[').strip('/').split('/') is proved to undo the join on "
+         "every path that resolves); C18_conditions_exact (for expressions of plain steps name|* [i]|[*] [text() op v], any "
+         "length, findall equals the sibling-filter semantics); C18_deep_wildcard (+_resolves_str: '**' returns every leaf "
+         "exactly once in document order, each resolving through string-form get); C18_findfirst / C18_in_iff / "
+         "C18_find_first_prefix / C18_findall_none (+C18_findfirst_str) for EVERY expression including '..' steps: findfirst is "
+         "the first findall result, 'in' is true exactly when findall is non-empty, find_first=True yields a prefix, and findall "
+         "returns None only for step lists of the statically defined second kind (kindL = false; never without '..') - proved by "
+         "a lock-step simulation of the two runs through the '..' protocol (return None / sought[2:]; break); this needs fix "
+         "C18-d (findall dropped the matches of '**' dives when a later sibling resolved a '..' at the same level; without the "
+         "fix findfirst differs from findall[0] exactly for a filtered '**' step directly followed by '..' whose tail collapses, "
+         "206 such expressions found by exhaustive search, none after the fix). C18_parse_render / C18_parseStep_render / "
+         "C18_findall_rendered: for expressions of the property's grammar (tokens '..' or tag[idx][text() op v], tag a name, "
+         "'*' or '**', idx absent/[*]/[i], op = or !=, value non-empty without quotes and '/') whose text contains no '**/**' "
+         "(C18_parse_render_noDD: structurally, no plain '**' token directly followed by a '**...' token), "
+         "the '**/**' loop + path split + '..' test + step parser (which stands for the regex) return exactly the tokens, so "
+         "findall(string) is findall(list of rendered steps). The step regex is replaced by a hand-written parser validated "
+         "against re.match (regex read from the source, also on every rendered grammar step); the '**/**' collapse itself, "
+         "quoted/==/<> condition spellings, int()/str() and non-grammar strings are covered by correspondence streams only; "
+         "all nine statements are executed on the real code with ElementTree as the oracle.",
     note="see notes/C18.md for the exact list of proved theorems and what stays differential only",
     design_ref="5/C18",
 )
@@ -181,6 +192,17 @@ def canon_get(r):
     return " ".join(["ok", "some"] + enc_xval(r))
 
 
+def canon_attr(r):
+    if r is _DEF:
+        return "ok default"
+    if not isinstance(r, dict):
+        raise ValueError("shape")
+    out = ["ok", "some", str(len(r))]
+    for k, x in r.items():
+        out += [enc_str(k), enc_str(x)]
+    return " ".join(out)
+
+
 def elem_toks(case):
     return " ".join(enc_elem(doc_of(case)[0]))
 
@@ -276,6 +298,100 @@ def gen_xp_from_path(rng, path, elem, tags, simple=False):
     if not simple and rng.random() < 0.1:
         steps.append(gen_step(rng, tags))
     return "/".join(steps)
+
+
+# ---- expressions of the property's grammar as token lists (Lean: Tok / renderTok / renderExpr) ----
+# token: None ('..') or [tag, idx, cond]; idx: None | "*" | int; cond: None | [op, value], op in ("=", "!=")
+def render_tok(t):
+    if t is None:
+        return ".."
+    tag, idx, cond = t
+    out = tag
+    if idx is not None:
+        out += "[%s]" % idx
+    if cond is not None:
+        out += "[text()%s%s]" % (cond[0], cond[1])
+    return out
+
+
+def render_expr(toks):
+    return "/".join(render_tok(t) for t in toks)
+
+
+def wf_value(op, v):
+    return bool(v) and "'" not in v and '"' not in v and "/" not in v and not (op == "=" and v.startswith("="))
+
+
+def wf_tok(t):
+    if t is None:
+        return True
+    tag, idx, cond = t
+    if not (tag in ("*", "**") or re.fullmatch(r"[A-Za-z0-9_]+", tag)):
+        return False
+    if not (idx is None or idx == "*" or (isinstance(idx, int) and idx >= 0)):
+        return False
+    return cond is None or (cond[0] in ("=", "!=") and wf_value(cond[0], cond[1]))
+
+
+def wf_expr(toks):
+    """inside the quantifier of C18_parse_render: grammar tokens, not empty, no '**/**' in the text"""
+    return bool(toks) and all(wf_tok(t) for t in toks) and "**/**" not in render_expr(toks)
+
+
+def gen_tok(rng, tags, text=None, k=None):
+    tag = rng.choice(tags + tags + ["*", "**", "zz", "b_2"])
+    idx = rng.choice([None, None, None, 0, 1, 2, "*", k if k is not None else 3])
+    cond = None
+    if rng.random() < 0.3:
+        op = rng.choice(["=", "!="])
+        vals = [v for v in TEXTS + ["none", "NULL", "nul", "a]b", "x]", "[0]", "=x"] + ([text] if isinstance(text, str) else []) if wf_value(op, v)]
+        cond = [op, rng.choice(vals)]
+    return [tag, idx, cond]
+
+
+def gen_grammar_case(rng, maxdepth):
+    spec = gen_spec(rng, 0, rng.choice([1, 2, 2, 3, 3, maxdepth]))
+    case = {"doc": spec, "pretty": rng.random() < 0.2}
+    root, _ = doc_of(case)
+    paths = all_paths(root)
+    tags = sorted({c.tag for _, c in paths}) or ["a"]
+    toks = []
+    if paths and rng.random() < 0.7:
+        p, e = rng.choice(paths)
+        for i, (tag, k) in enumerate(p):
+            last = i == len(p) - 1
+            r = rng.random()
+            if r < 0.2:
+                toks.append(["**", rng.choice([None, None, "*", 0, 1, 1]), [rng.choice(["=", "!="]), rng.choice(["x", e.text or "x"])] if rng.random() < 0.2 else None])
+                if rng.random() < 0.3:
+                    # a (filtered) deep step directly followed by '..' (the shape of the former finding C18-d)
+                    toks.append(None)
+                    if rng.random() < 0.5:
+                        break
+                if rng.random() < 0.5:
+                    continue
+            t = [tag if rng.random() < 0.75 else "*", rng.choice([None, k, k, "*"]), None]
+            if rng.random() < (0.4 if last else 0.08):
+                t = gen_tok(rng, [t[0]] if t[0] != "*" else tags, e.text if last and not len(e) else None, k)
+            toks.append(t)
+            if rng.random() < 0.12:
+                toks.append(None)
+        if rng.random() < 0.25:
+            toks.append(None)
+            if rng.random() < 0.7:
+                toks.append(gen_tok(rng, tags))
+    else:
+        for i in range(rng.choice([1, 1, 2, 2, 3, 4, 5])):
+            toks.append(None if (i > 0 and rng.random() < 0.2) else gen_tok(rng, tags))
+    # keep the case inside the grammar's quantifier: drop a '**…' token that follows a plain '**'
+    out = []
+    for t in toks:
+        if out and out[-1] is not None and out[-1] == ["**", None, None] and t is not None and t[0] == "**":
+            continue
+        out.append(t)
+    case["toks"] = out
+    case["xp"] = render_expr(out)
+    return case
 
 
 def gen_case(rng, maxdepth, simple=False):
@@ -393,6 +509,10 @@ def oracle_select(elem, steps):
 # ---------------------------------------------------------------------------
 # C: the statements on the implementation
 # ---------------------------------------------------------------------------
+def has_attrib(spec):
+    return bool(spec[2]) or any(has_attrib(k) for k in spec[3])
+
+
 def flatten_et(root):
     out = []
 
@@ -453,6 +573,71 @@ def ev_get_positional(c):
                 r = core.call(doc.get, below, _DEF)
                 if r != ("ok", _DEF):
                     return {"xp": below, "got": repr(r)[:200], "want": "default", "below_leaf": True}
+    return None
+
+
+def ev_get_attrib_positional(c):
+    """get_attrib at every position (string and list form): the attributes ElementTree reports, in order;
+    the default one past the last same-tag sibling and below a leaf"""
+    root, doc = doc_of(c)
+    for p, e in all_paths(root):
+        steps = ["%s[%d]" % (t, k) for t, k in p]
+        want = list(e.attrib.items())
+        for arg in ("/".join(steps), list(steps)):
+            r = core.call(doc.get_attrib, arg, _DEF)
+            if r[0] != "ok" or r[1] is _DEF or not isinstance(r[1], dict) or list(r[1].items()) != want:
+                return {"xp": arg, "got": repr(r)[:200], "want": repr(want)[:200], "has_children": bool(len(e))}
+        t, k = p[-1]
+        parent = et_resolve(root, steps[:-1])
+        n = len([x for x in parent if x.tag == t])
+        miss = steps[:-1] + ["%s[%d]" % (t, n)]
+        for arg in ("/".join(miss), list(miss)):
+            r = core.call(doc.get_attrib, arg, _DEF)
+            if r != ("ok", _DEF):
+                return {"xp": arg, "got": repr(r)[:200], "want": "default"}
+        if not len(e):
+            r = core.call(doc.get_attrib, "/".join(steps) + "/a[0]", _DEF)
+            if r != ("ok", _DEF):
+                return {"xp": "/".join(steps) + "/a[0]", "got": repr(r)[:200], "want": "default", "below_leaf": True}
+    return None
+
+
+def tok_of_groups(g):
+    """regex groups -> token (None if the groups are outside the grammar's reading)"""
+    idx = None if g[1] is None else ("*" if g[1] == "*" else int(g[1]))
+    cond = None
+    if g[2] is not None or g[4] is not None:
+        cond = [g[4], g[5]]
+    return [g[0], idx, cond]
+
+
+def ev_parse_render(c):
+    """C18_parse_render / C18_findall_rendered on the real code: findall(rendered string) == findall(list of
+    rendered steps) (value identity included), and the source regex reads every rendered step back as its token"""
+    toks = c["toks"]
+    if not wf_expr(toks):
+        return None
+    _, doc = doc_of(c)
+    xp = render_expr(toks)
+    steps = [render_tok(t) for t in toks]
+    for ff in (False, True):
+        a = core.call(doc.findall, xp, [], ff)
+        b = core.call(doc.findall, list(steps), [], ff)
+        same = a[0] == b[0] and (a[0] != "ok" or (a[1] is None) == (b[1] is None))
+        if same and a[0] == "ok" and a[1] is not None:
+            same = len(a[1]) == len(b[1]) and all(x[0] == y[0] and (x[1] is y[1] or (x[1] == y[1] and not isinstance(x[1], list))) for x, y in zip(a[1], b[1]))
+        if not same:
+            return {"find_first": ff, "string": repr(a)[:200], "list": repr(b)[:200], "xp": xp}
+    rx = _RX.get("rx") or source_regex()
+    if rx is not None:
+        for t, st in zip(toks, steps):
+            if t is None:
+                if st != "..":
+                    return {"step": st, "token": t}
+                continue
+            m = re.match(rx, st)
+            if not m or m.end() != len(st) or tok_of_groups(m.groups()) != t:
+                return {"step": st, "token": t, "groups": None if not m else list(m.groups())}
     return None
 
 
@@ -536,6 +721,8 @@ EVALS = {
     "deep_wildcard": ev_deep_wildcard,
     "findfirst": ev_findfirst,
     "in_iff": ev_in_iff,
+    "get_attrib_positional": ev_get_attrib_positional,
+    "parse_render": ev_parse_render,
 }
 
 
@@ -620,14 +807,31 @@ def witness_fails(finding):
 
 
 # ---------------------------------------------------------------------------
+def valid_toks(toks):
+    return isinstance(toks, list) and all(t is None or (isinstance(t, list) and len(t) == 3 and isinstance(t[0], str)
+                                                       and (t[1] is None or t[1] == "*" or (isinstance(t[1], int) and not isinstance(t[1], bool)))
+                                                       and (t[2] is None or (isinstance(t[2], list) and len(t[2]) == 2 and all(isinstance(x, str) for x in t[2])))) for t in toks)
+
+
 def valid_case(c):
-    return isinstance(c, dict) and valid_spec(c.get("doc")) and isinstance(c.get("xp", ""), str)
+    if not (isinstance(c, dict) and valid_spec(c.get("doc")) and isinstance(c.get("xp", ""), str)):
+        return False
+    if "toks" in c:
+        # a grammar case: the token list stays inside the grammar and the text stays its rendering
+        return valid_toks(c["toks"]) and wf_expr(c["toks"]) and c.get("xp") == render_expr(c["toks"])
+    return True
 
 
 def shrink_failure(evaluator, case):
     fn = EVALS.get(evaluator)
     if fn is None:
         return case
+    if "toks" in case:
+        # the expression (token list and its text) is tied to the document: only the document is shrunk
+        fixed = {"toks": case["toks"], "xp": case["xp"]}
+        small = core.shrink({k: v for k, v in case.items() if k not in fixed},
+                            lambda c: valid_case(dict(c, **fixed)) and fn(dict(c, **fixed)) is not None, budget=600)
+        return dict(small, **fixed)
     return core.shrink(case, lambda c: valid_case(c) and fn(c) is not None, budget=600)
 
 
@@ -639,6 +843,10 @@ def impl_answer(stream, c):
         return canon(lambda: canon_get(doc.get(c["xp"], _DEF)))
     if stream == "nxml.getl":
         return canon(lambda: canon_get(doc.get(list(c["steps"]), _DEF)))
+    if stream == "nxml.getattr":
+        return canon(lambda: canon_attr(doc.get_attrib(c["xp"], _DEF)))
+    if stream == "nxml.getattrl":
+        return canon(lambda: canon_attr(doc.get_attrib(list(c["steps"]), _DEF)))
     if stream.startswith("nxml.findall/"):
         return canon(lambda: canon_hits(doc.findall(c["xp"], [], c["ff"])))
     if stream.startswith("nxml.findalll"):
@@ -657,10 +865,10 @@ def line_of(stream, c):
     op = stream.split("/")[0]
     if op == "nxml.parse":
         return "nxml.parse " + elem_toks(c)
-    if op in ("nxml.get", "nxml.findfirst", "nxml.in"):
+    if op in ("nxml.get", "nxml.getattr", "nxml.findfirst", "nxml.in"):
         return "%s %s %s" % (op, enc_str(c["xp"]), elem_toks(c))
-    if op == "nxml.getl":
-        return "nxml.getl %d %s %s" % (len(c["steps"]), " ".join(enc_str(s) for s in c["steps"]), elem_toks(c))
+    if op in ("nxml.getl", "nxml.getattrl"):
+        return ("%s %d %s %s" % (op, len(c["steps"]), " ".join(enc_str(s) for s in c["steps"]), elem_toks(c))).replace("  ", " ")
     if op == "nxml.findall":
         return "nxml.findall %s %s %s" % ("T" if c["ff"] else "F", enc_str(c["xp"]), elem_toks(c))
     if op == "nxml.findalll":
@@ -679,8 +887,9 @@ def replay(rp):
     stream = rp["correspondence_stream"]
     print("correspondence replay:", stream, c)
     mo = core.run_driver([rp["line"]])[0]
-    if stream in PRIM:
-        io_ = PRIM[stream](c)
+    if stream.split("/")[0] in PRIM:
+        _RX.setdefault("rx", source_regex())
+        io_ = PRIM[stream.split("/")[0]](c)
     else:
         io_ = impl_answer(stream, c)
     print("model:", mo)
@@ -796,11 +1005,39 @@ def run(ctx):
     ik_c = make_in_known({"cls_get_below_leaf"})
     ik_d = make_in_known({"cls_filtered_deep_then_up", "cls_empty_root_deep"})
 
+    # expressions of the property's grammar, as token lists (rendered text in "xp")
+    rng = ctx.rng("grammar")
+    qcases = [gen_grammar_case(rng, maxdepth) for _ in range(n // 3)]
+    qcases = [c for c in qcases if wf_expr(c["toks"])]
+    for d in corner_docs:
+        for toks in ([["**", 1, None], None], [["**", None, ["=", "x"]], None, None], [["a", None, None], None, ["b", "*", None]],
+                     [["**", "*", None], ["a", 0, ["!=", "none"]]], [["*", None, None], None, ["*", None, None], None], [None, ["a", None, None]]):
+            qcases.append({"doc": d, "pretty": False, "toks": toks, "xp": render_expr(toks)})
+
+    # the former finding C18-d (a filtered '**' directly followed by '..'): witnesses kept as fixed cases
+    d_docs = [["r", None, [], [["a", None, [], [["b", None, [], []], ["b", None, [], []]]], ["a", None, [], []]]],
+              ["r", None, [], [["a", None, [], [["a", None, [], []], ["b", "x", [], []]]], ["a", "x", [], []]]],
+              ["r", None, [], [["a", None, [], [["b", None, [], [["b", None, [], []], ["b", "x", [], []]]], ["b", None, [], []]]], ["a", None, [], []], ["b", None, [], []]]]]
+    for d in d_docs:
+        for toks in ([["**", 1, None], None], [["**", None, ["=", "x"]], None], [["a", None, None], ["**", 1, None], None],
+                     [["**", 1, None], None, ["a", None, None], None], [["**", 1, None], None, ["a", None, None]], [["**", 1, None], None, None]):
+            qcases.append({"doc": d, "pretty": False, "toks": toks, "xp": render_expr(toks)})
+            fcases.append({"doc": d, "pretty": False, "xp": render_expr(toks)})
+
     pcases = [{"doc": c["doc"], "pretty": c["pretty"]} for c in fcases[: n // 2]]
     ctx.correspond("nxml.parse", pcases, lambda c: line_of("nxml.parse", c), lambda c: impl_answer("nxml.parse", c), nontrivial=nt)
     ctx.correspond("nxml.get", gcases, lambda c: line_of("nxml.get", c), lambda c: impl_answer("nxml.get", c), in_known=ik_c, nontrivial=nt)
     lcases = [dict(c, steps=c["xp"].replace("/[", "[").strip("/").split("/") if c["xp"] else []) for c in gcases[: n // 2]]
     ctx.correspond("nxml.getl", lcases, lambda c: line_of("nxml.getl", c), lambda c: impl_answer("nxml.getl", c), in_known=ik_c, nontrivial=nt)
+    acases = [c for c in gcases if c["xp"]] + [{"doc": d, "pretty": False, "xp": xp} for d in corner_docs for xp in ("a", "a[0]", "b/a[0]", "a[1]", "b[0]/c[0]/a", "", "/")]
+    ctx.correspond("nxml.getattr", acases, lambda c: line_of("nxml.getattr", c), lambda c: impl_answer("nxml.getattr", c), in_known=ik_c, nontrivial=nt)
+    ctx.correspond("nxml.getattrl", lcases, lambda c: line_of("nxml.getattrl", c), lambda c: impl_answer("nxml.getattrl", c), in_known=ik_c, nontrivial=nt)
+    if rx is not None:
+        stepcases = [{"s": render_tok(t)} for c in qcases for t in c["toks"]]
+        ctx.correspond("nxml.step/grammar", stepcases, lambda c: "nxml.step " + enc_str(c["s"]), prim_step)
+    ctx.correspond("nxml.norm/grammar", [{"s": c["xp"]} for c in qcases], lambda c: "nxml.norm " + enc_str(c["s"]), prim_norm)
+    cs = [dict(c, ff=(i % 2 == 1)) for i, c in enumerate(qcases)]
+    ctx.correspond("nxml.findall/grammar", cs, lambda c: line_of("nxml.findall/grammar", c), lambda c: impl_answer("nxml.findall/grammar", c), in_known=ik_b, nontrivial=nt)
     for ff in (False, True):
         cs = [dict(c, ff=ff) for c in fcases + scases]
         name = "nxml.findall/" + ("first" if ff else "all")
@@ -824,10 +1061,12 @@ def run(ctx):
     ctx.evaluate("parse_preserves", docs_only, ev_parse_preserves, nontrivial=nt)
     ctx.evaluate("get_positional", docs_only, ev_get_positional, in_known=ik_c, nontrivial=nt)
     ctx.evaluate("deep_wildcard", docs_only + [{"doc": d, "pretty": False} for d in corner_docs], ev_deep_wildcard, in_known=ik_b, nontrivial=nt)
-    ctx.evaluate("findall_resolves", fcases + scases, ev_findall_resolves, in_known=ik_b, nontrivial=nt)
+    ctx.evaluate("findall_resolves", fcases + scases + qcases, ev_findall_resolves, in_known=ik_b, nontrivial=nt)
     ctx.evaluate("conditions_exact", scases + fcases, ev_conditions_exact, nontrivial=lambda c: parse_simple(c["xp"]) is not None and nt(c))
-    ctx.evaluate("findfirst", fcases + scases, ev_findfirst, in_known=ik_d, nontrivial=nt)
-    ctx.evaluate("in_iff", fcases + scases, ev_in_iff, in_known=ik_a, nontrivial=nt)
+    ctx.evaluate("findfirst", fcases + scases + qcases, ev_findfirst, in_known=ik_d, nontrivial=nt)
+    ctx.evaluate("in_iff", fcases + scases + qcases, ev_in_iff, in_known=ik_a, nontrivial=nt)
+    ctx.evaluate("get_attrib_positional", docs_only[::2], ev_get_attrib_positional, in_known=ik_c, nontrivial=lambda c: nt(c) and has_attrib(c["doc"]))
+    ctx.evaluate("parse_render", qcases, ev_parse_render, nontrivial=nt)
 
     # ---- distribution -------------------------------------------------------
     from n0struct.n0struct_xml import n0xml  # noqa
@@ -846,7 +1085,8 @@ def run(ctx):
     ctx.extra["assumptions"] = [
         "xml.etree.ElementTree (expat) is trusted: the model and the oracles start from the element tree it reports",
         "expressions are ASCII (the model answers `unsupported` otherwise: regex classes \\d/.lower()/int() are modelled for ASCII)",
-        "the model follows n0struct_xml.py with fixes C18-a (`in`), C18-b (`**` on an empty document) and C18-c (get below a leaf) applied",
+        "the model follows n0struct_xml.py with fixes C18-a (`in`), C18-b (`**` on an empty document), C18-c (get below a leaf) and C18-d (findall keeps dive matches before a '..' resolved at the same level) applied",
+        "get_attrib with an empty path raises RuntimeError on the real code; the model answers `unsupported` there (PyErr has no RuntimeError)",
         "text of elements that have children and tail text are dropped by n0xml; the property speaks about tags, attributes, leaf texts, order",
     ]
     ctx.extra["trusted_base"] = ["xml.etree.ElementTree / expat (produces the input tree)", "re.match only as the reference of stream nxml.step (the model uses a hand-written step parser)"]
